@@ -108,23 +108,25 @@ def addEvent (idx : Nat) (acc : List Event) (id : Nat) (k : Kind) (inflow outflo
 def relevant (t : Txn) : Bool :=
   t.outs.any (·.2) || t.ins.any (·.own) || t.sfins.any (·.claimOwn)
 
-/-- :133-144 / :166-177 — a claim event per siafund input whose claim is paid to the wallet -/
+def payout (b : Block) (k : Kind) (acc : List Event) (id : Nat) : List Event :=
+  match lookup b.diffs id with
+  | some sce => addEvent b.idx acc id k sce.value 0 sce.maturity
+  | none => acc
+
+/-- :133-144 / :166-177 — a claim event per siafund input whose claim is paid to the wallet (the
+code panics if the claim element is missing: consensus always creates it) -/
 def claimEvents (b : Block) (acc : List Event) (t : Txn) : List Event :=
-  t.sfins.foldl (fun acc si =>
-    if si.claimOwn then
-      match lookup b.diffs si.claimId with
-      | some sce => addEvent b.idx acc si.claimId .claim sce.value 0 sce.maturity
-      | none => acc   -- the code panics: consensus always creates the claim element
-    else acc) acc
+  t.sfins.foldl (fun acc si => if si.claimOwn then payout b .claim acc si.claimId else acc) acc
 
 def sumOwnOuts (t : Txn) : Nat := ((t.outs.filter (·.2)).map (·.1)).sum
 
+/-- value of the element the diffs hold under `id` if it pays the wallet (0 otherwise) -/
+def ownValue (b : Block) (id : Nat) : Nat :=
+  match lookup b.diffs id with | some e => if e.own then e.value else 0 | none => 0
+
 /-- outflow of a v1 transaction event (:150-158 with events.go:108-116): the spent elements, looked
 up in the diffs, that belong to the wallet -/
-def v1Outflow (b : Block) (t : Txn) : Nat :=
-  (t.ins.map fun i => match lookup b.diffs i.id with
-    | some se => if se.own then se.value else 0
-    | none => 0).sum
+def v1Outflow (b : Block) (t : Txn) : Nat := (t.ins.map fun i => ownValue b i.id).sum
 
 /-- outflow of a v2 transaction event (events.go:117-125): the parents the inputs carry -/
 def v2Outflow (t : Txn) : Nat := ((t.ins.filter (·.own)).map (·.value)).sum
@@ -135,11 +137,6 @@ def txnEvents (b : Block) (acc : List Event) (t : Txn) : List Event :=
     let acc := claimEvents b acc t
     if t.v2 then addEvent b.idx acc t.id .v2txn (sumOwnOuts t) (v2Outflow t) b.height
     else addEvent b.idx acc t.id .v1txn (sumOwnOuts t) (v1Outflow b t) b.height
-
-def payout (b : Block) (k : Kind) (acc : List Event) (id : Nat) : List Event :=
-  match lookup b.diffs id with
-  | some sce => addEvent b.idx acc id k sce.value 0 sce.maturity
-  | none => acc
 
 /-- :182-226 -/
 def res1Events (b : Block) (acc : List Event) (r : Res1) : List Event :=
@@ -164,6 +161,59 @@ def appliedEvents (b : Block) : List Event :=
   -- :287-292 the foundation subsidy, if the block has one and it pays the wallet
   payoutIfOwn b .foundation acc b.foundationId
 
+/-! ### what a block's contents have to do with its diffs (a consensus fact, checked by the
+driver on every real block the harness declares) -/
+
+/-- the wallet's elements of a diff list (:303-317, :328-342): created, spent (ephemeral and
+foreign elements are skipped) -/
+def ownCreated (diffs : List Diff) : List Elem :=
+  (diffs.filter fun d => !(d.created && d.spent) && d.e.own && d.created).map (·.e)
+
+def ownSpent (diffs : List Diff) : List Elem :=
+  (diffs.filter fun d => !(d.created && d.spent) && d.e.own && !d.created && d.spent).map (·.e)
+
+
+def sumE (es : List Elem) : Nat := (es.map (·.value)).sum
+
+/-- value of the element the diffs hold under `id` (0 if none) -/
+def elemValue (b : Block) (id : Nat) : Nat := match lookup b.diffs id with | some e => e.value | none => 0
+
+/-- the siafund claims of a transaction that are paid to the wallet -/
+def claimSum (b : Block) (t : Txn) : Nat := ((t.sfins.filter (·.claimOwn)).map fun si => elemValue b si.claimId).sum
+
+def txnOutflow (b : Block) (t : Txn) : Nat := if t.v2 then v2Outflow t else v1Outflow b t
+
+/-- what the contents of the block pay to the wallet: transaction outputs and siafund claims,
+v1 contract payouts (valid or missed), v2 contract payouts (storage proof, expiration,
+renewal), miner payouts, the foundation subsidy -/
+def paid (b : Block) : Nat :=
+  (b.txns.map fun t => claimSum b t + sumOwnOuts t).sum +
+  (b.res1.map fun r => ((r.outs.filter (·.1)).map fun o => elemValue b o.2).sum).sum +
+  (b.res2.map fun r => ownValue b r.hostId + ownValue b r.renterId).sum +
+  ((b.miners.filter (·.1)).map fun m => elemValue b m.2).sum +
+  ownValue b b.foundationId
+
+/-- what the transactions of the block take from the wallet -/
+def taken (b : Block) : Nat := (b.txns.map (txnOutflow b)).sum
+
+/-- the wallet's elements that the block both creates and spends -/
+def ephemeralOwn (b : Block) : Nat := ((b.diffs.filter fun d => d.created && d.spent && d.e.own).map (·.e.value)).sum
+
+/-- the unlock hash of a v1 input is the address of the element it spends -/
+def v1InsCoherent (b : Block) : Bool :=
+  b.txns.all fun t => t.v2 || t.ins.all fun i =>
+    match lookup b.diffs i.id with | some e => e.own == i.own | none => true
+
+/-- the wallet's share of the elements the block creates (spends) is what its contents pay to
+(take from) the wallet -/
+def coherent (b : Block) : Bool :=
+  decide (sumE (ownCreated b.diffs) + ephemeralOwn b = paid b) &&
+  decide (sumE (ownSpent b.diffs) + ephemeralOwn b = taken b) && v1InsCoherent b
+
+def BlockCoherent (b : Block) : Prop := coherent b = true
+
+instance (b : Block) : Decidable (BlockCoherent b) := by unfold BlockCoherent; infer_instance
+
 /-! ### the store and the two update functions -/
 
 /-- a stored unspent output; `basis` = the block at whose accumulator its Merkle proof verifies -/
@@ -179,14 +229,6 @@ structure Store where
   events : List Event
 
 def Store.init : Store := ⟨0, fun _ => none, []⟩
-
-/-- the wallet's elements of a diff list (:303-317, :328-342): created, spent (ephemeral and
-foreign elements are skipped) -/
-def ownCreated (diffs : List Diff) : List Elem :=
-  (diffs.filter fun d => !(d.created && d.spent) && d.e.own && d.created).map (·.e)
-
-def ownSpent (diffs : List Diff) : List Elem :=
-  (diffs.filter fun d => !(d.created && d.spent) && d.e.own && !d.created && d.spent).map (·.e)
 
 def remove (m : Nat → Option UEntry) (es : List Elem) : Nat → Option UEntry :=
   fun id => if es.any (·.id == id) then none else m id
